@@ -37,7 +37,7 @@ class Op:
     def text(self):
         k = self.kind
         if k == "E":
-            return "E%s:%s" % (self.mcv.hex(), ",".join(c.hex() for c in self.chunks))
+            return "E%s:%s" % (self.mcv.hex(), ",".join((c.hex() if c else "z") for c in self.chunks))
         if k == "J":
             if self.blobspec is not None:
                 return "J%s:b%d.%d" % (self.mcv.hex(), self.blobspec[0], self.blobspec[1])
